@@ -166,20 +166,124 @@ func init() {
 
 func stubNop(fr *frame, a []value) value { return nil }
 
-// Hand matcher for the two literal patterns of encoding/wkt (the regexp engine itself is not
-// executed): `\)([\s|\t]*,[\s|\t]*)\(` and `\)[\s|\t]*\)([\s|\t]*,[\s|\t]*)\([\s|\t]*\(`.
-// Leftmost, non-overlapping matches; the class [\s|\t] is { \t \n \v \f \r space | }.
+// A small regular-expression interpreter for the patterns encoding/wkt uses (the regexp package
+// itself is not executed): literals, escapes (\\( \\) \\s \\t ...), character classes, '*', and
+// capturing groups; leftmost-first backtracking semantics like Go's regexp for this subset. The
+// subject may contain symbolic bytes: every byte comparison is a (cached) path decision.
+type reNode struct {
+	kind  int // 0 literal/class (set), 1 group
+	set   []byte
+	star  bool
+	group int // capture index for kind 1
+	sub   []reNode
+}
+
+var reSpace = []byte{' ', '\t', '\n', '\v', '\f', '\r'}
+
+func reParse(expr string) ([]reNode, int, bool) {
+	pos := 0
+	ngroups := 0
+	var parseSeq func(inGroup bool) ([]reNode, bool)
+	escape := func(c byte) ([]byte, bool) {
+		switch c {
+		case 's':
+			return reSpace, true
+		case 't':
+			return []byte{'\t'}, true
+		case 'n':
+			return []byte{'\n'}, true
+		case 'd':
+			return []byte("0123456789"), true
+		case '(', ')', '[', ']', '\\', '.', '*', '+', '?', '|', ',', '{', '}', '^', '$':
+			return []byte{c}, true
+		}
+		return nil, false
+	}
+	parseSeq = func(inGroup bool) ([]reNode, bool) {
+		var seq []reNode
+		for pos < len(expr) {
+			c := expr[pos]
+			var n reNode
+			switch c {
+			case ')':
+				if !inGroup {
+					return nil, false
+				}
+				pos++
+				return seq, true
+			case '(':
+				pos++
+				ngroups++
+				g := ngroups
+				sub, ok := parseSeq(true)
+				if !ok {
+					return nil, false
+				}
+				n = reNode{kind: 1, group: g, sub: sub}
+			case '[':
+				pos++
+				var set []byte
+				for pos < len(expr) && expr[pos] != ']' {
+					if expr[pos] == '\\' && pos+1 < len(expr) {
+						e, ok := escape(expr[pos+1])
+						if !ok {
+							return nil, false
+						}
+						set = append(set, e...)
+						pos += 2
+						continue
+					}
+					if expr[pos] == '-' || expr[pos] == '^' {
+						return nil, false // ranges / negation not supported
+					}
+					set = append(set, expr[pos])
+					pos++
+				}
+				if pos >= len(expr) {
+					return nil, false
+				}
+				pos++
+				n = reNode{set: set}
+			case '\\':
+				if pos+1 >= len(expr) {
+					return nil, false
+				}
+				e, ok := escape(expr[pos+1])
+				if !ok {
+					return nil, false
+				}
+				pos += 2
+				n = reNode{set: e}
+			case '*', '+', '?', '|', '.', '{', '^', '$':
+				return nil, false
+			default:
+				pos++
+				n = reNode{set: []byte{c}}
+			}
+			if pos < len(expr) && expr[pos] == '*' {
+				if n.kind == 1 {
+					return nil, false
+				}
+				n.star = true
+				pos++
+			}
+			seq = append(seq, n)
+		}
+		if inGroup {
+			return nil, false
+		}
+		return seq, true
+	}
+	seq, ok := parseSeq(false)
+	return seq, ngroups, ok
+}
+
 func stubFindAllStringSubmatchIndex(fr *frame, a []value) value {
 	re := (*a[0].(*value)).(structure)
 	expr, _ := re[0].(string)
-	var double bool
-	switch expr {
-	case "\\)([\\s|\\t]*,[\\s|\\t]*)\\(":
-		double = false
-	case "\\)[\\s|\\t]*\\)([\\s|\\t]*,[\\s|\\t]*)\\([\\s|\\t]*\\(":
-		double = true
-	default:
-		panic(unsupported{"regexp pattern without a hand matcher: " + expr})
+	nodes, ngroups, ok := reParse(expr)
+	if !ok {
+		panic(unsupported{"regexp pattern outside the supported subset: " + expr})
 	}
 	s := toSymString(a[1]).b
 	pc := fr.i.pc
@@ -195,63 +299,72 @@ func stubFindAllStringSubmatchIndex(fr *frame, a []value) value {
 		}
 		return false
 	}
-	ws := func(i int) bool {
-		for _, c := range []byte{' ', '\t', '\n', '\v', '\f', '\r', '|'} {
+	inSet := func(i int, set []byte) bool {
+		for _, c := range set {
 			if is(i, c) {
 				return true
 			}
 		}
 		return false
 	}
-	skip := func(i int) int {
-		for i < len(s) && ws(i) {
-			i++
+	var matchSeq func(seq []reNode, i int, caps []int, k func(int, []int) (int, []int, bool)) (int, []int, bool)
+	matchSeq = func(seq []reNode, i int, caps []int, k func(int, []int) (int, []int, bool)) (int, []int, bool) {
+		if len(seq) == 0 {
+			return k(i, caps)
 		}
-		return i
-	}
-	// match at position i: returns (end, g1start, g1end, ok)
-	match := func(i int) (int, int, int, bool) {
-		if !is(i, ')') {
-			return 0, 0, 0, false
+		n := seq[0]
+		rest := seq[1:]
+		if n.kind == 1 {
+			start := i
+			return matchSeq(n.sub, i, caps, func(j int, c2 []int) (int, []int, bool) {
+				c3 := append([]int{}, c2...)
+				c3[2*n.group] = start
+				c3[2*n.group+1] = j
+				return matchSeq(rest, j, c3, k)
+			})
 		}
-		j := i + 1
-		if double {
-			j = skip(j)
-			if !is(j, ')') {
-				return 0, 0, 0, false
+		if n.star {
+			// greedy: take as many as possible, then back off
+			j := i
+			for j < len(s) && inSet(j, n.set) {
+				j++
 			}
-			j++
-		}
-		g1 := j
-		j = skip(j)
-		if !is(j, ',') {
-			return 0, 0, 0, false
-		}
-		j = skip(j + 1)
-		g1e := j
-		if !is(j, '(') {
-			return 0, 0, 0, false
-		}
-		j++
-		if double {
-			j = skip(j)
-			if !is(j, '(') {
-				return 0, 0, 0, false
+			for ; j >= i; j-- {
+				if e, c, ok := matchSeq(rest, j, caps, k); ok {
+					return e, c, true
+				}
 			}
-			j++
+			return 0, nil, false
 		}
-		return j, g1, g1e, true
+		if i < len(s) && inSet(i, n.set) {
+			return matchSeq(rest, i+1, caps, k)
+		}
+		return 0, nil, false
 	}
 	var res []value
-	for i := 0; i < len(s); {
-		if end, g1, g1e, ok := match(i); ok {
-			res = append(res, []value{i, end, g1, g1e})
-			i = end
+	for i := 0; i <= len(s); {
+		caps := make([]int, 2*(ngroups+1))
+		for k := range caps {
+			caps[k] = -1
+		}
+		end, c, ok := matchSeq(nodes, i, caps, func(j int, c []int) (int, []int, bool) { return j, c, true })
+		if ok {
+			c[0], c[1] = i, end
+			m := make([]value, len(c))
+			for k := range c {
+				m[k] = c[k]
+			}
+			res = append(res, m)
+			if end > i {
+				i = end
+			} else {
+				i++
+			}
 		} else {
 			i++
 		}
 	}
-	pc.stats.StubsHit["handmatcher:regexp "+expr]++
+	pc.stats.StubsHit["regexp-interpreter:"+expr]++
 	if len(res) == 0 {
 		return []value(nil)
 	}
